@@ -81,14 +81,19 @@ template <typename S> static std::string value_rt(const std::vector<unsigned cha
   mxArray *a = wrap<S>(v); S w = unwrap<S>(a);
   std::ostringstream o; o << (std::memcmp(&v, &w, sizeof(S)) == 0 ? "same " : "DIFF ") << name_of(a->cls) << " " << a->m << " " << a->n; mxDestroyArray(a); return o.str(); }
 
-struct Obj { int id; static int live; Obj(int i) : id(i) { ++live; } ~Obj() { --live; } };
+struct Obj { int id; static int live; Obj(int i) : id(i) { ++live; } virtual ~Obj() { --live; } };
 int Obj::live = 0;
 
 int main() {
   // MATLAB side of create_object: the proxy class constructor called with the pointer key stores the pointer
   mock::call_matlab = [](int nlhs, mxArray **plhs, int nrhs, mxArray **prhs, const char *name) -> int {
     mxArray *o = mock::make_object(name);
-    o->props["ptr_Obj"] = mxDuplicateArray(prhs[1]);
+    if (nrhs == 3) {   // virtual form: what the generated upcastFromVoid routine does with the shared_ptr<void>
+      std::shared_ptr<void> *asVoid = *reinterpret_cast<std::shared_ptr<void> **>(mxGetData(prhs[1]));
+      mxArray *p = mxCreateNumericMatrix(1, 1, mxUINT32OR64_CLASS, mxREAL);
+      *reinterpret_cast<std::shared_ptr<Obj> **>(mxGetData(p)) = new std::shared_ptr<Obj>(std::static_pointer_cast<Obj>(*asVoid));
+      o->props["ptr_Obj"] = p;
+    } else o->props["ptr_Obj"] = mxDuplicateArray(prhs[1]);
     plhs[0] = o; return 0; };
   std::map<int, std::shared_ptr<Obj>> owners; std::map<int, mxArray *> handles; int nexth = 1;
   std::string line;
@@ -113,9 +118,13 @@ int main() {
       else if (cmd == "H") { std::string op; int x; in >> op >> x;
         if (op == "new") { owners[x] = std::make_shared<Obj>(x); std::cout << "count " << owners[x].use_count() << " live " << Obj::live << "\n"; }
         else if (op == "wrap") { mxArray *h = wrap_shared_ptr(owners.at(x), "Obj", false); handles[nexth] = h; std::cout << "h " << nexth++ << " count " << owners.at(x).use_count() << " live " << Obj::live << "\n"; }
+        else if (op == "wrapvirtual") { mxArray *h = wrap_shared_ptr(owners.at(x), "Obj", true); handles[nexth] = h; std::cout << "h " << nexth++ << " count " << owners.at(x).use_count() << " live " << Obj::live << "\n"; }
         else if (op == "unwrap") { std::shared_ptr<Obj> p = unwrap_shared_ptr<Obj>(handles.at(x), "ptr_Obj"); std::cout << "obj " << p->id << " count " << p.use_count() - 1 << " live " << Obj::live << "\n"; }
         else if (op == "unwrapptr") { Obj *p = unwrap_ptr<Obj>(handles.at(x), "ptr_Obj"); std::shared_ptr<Obj> q = unwrap_shared_ptr<Obj>(handles.at(x), "ptr_Obj"); std::cout << (p == q.get() ? "sameobject" : "OTHERADDRESS") << "\n"; }
         else if (op == "release") { mxArray *h = handles.at(x); mxArray *pp = mxGetProperty(h, 0, "ptr_Obj"); std::shared_ptr<Obj> *sp = *reinterpret_cast<std::shared_ptr<Obj> **>(mxGetData(pp)); int id = (*sp)->id; long c = sp->use_count(); delete sp; mxDestroyArray(pp); mxDestroyArray(h); handles.erase(x); std::cout << "obj " << id << " count " << c - 1 << " live " << Obj::live << "\n"; }
+        else if (op == "reset") {   // end of one behaviour: release what is left; every object must be gone afterwards
+          for (auto &kv : handles) { mxArray *pp = mxGetProperty(kv.second, 0, "ptr_Obj"); delete *reinterpret_cast<std::shared_ptr<Obj> **>(mxGetData(pp)); mxDestroyArray(pp); mxDestroyArray(kv.second); }
+          handles.clear(); owners.clear(); nexth = 1; std::cout << "reset live " << Obj::live << "\n"; }
         else if (op == "drop") { long c = owners.at(x).use_count(); owners.erase(x); std::cout << "count " << c - 1 << " live " << Obj::live << "\n"; } }
       else if (cmd == "Q") break;
     } catch (std::exception &e) { std::cout << "EXC " << e.what() << "\n"; }
